@@ -29,7 +29,7 @@ ASSUMPTIONS = [
     'availabilityStartTime/timeShiftBufferDepth are compared with the values the manifest resolved (it writes the resolved values into the URLs)',
     'shims + werkzeug test client as HTTP boundary',
 ]
-REQUIRED_COUNTERS = ['unit.roundtrips', 'unit.options', 'int.media_requests', 'int.fields_compared',
+REQUIRED_COUNTERS = ['int.defaults_compared', 'unit.roundtrips', 'unit.options', 'int.media_requests', 'int.fields_compared',
                      'int.usage_checked', 'reach.calculate_cgi_parameters', 'reach._generate_parameters_dict',
                      'reach.append_cgi_params', 'reach.convert_options']
 
@@ -57,7 +57,7 @@ def option_texts(opt, rng) -> list[tuple[str, str]]:
             dt = datetime.datetime(rng.randrange(1971, 2035), rng.randrange(1, 13), rng.randrange(1, 29),
                                    rng.randrange(24), rng.randrange(60), rng.randrange(60),
                                    rng.choice([0, 0, 500000, 123456, 1]))
-            off = rng.choice([None, 0, 60, -300, 330, 765, -720])
+            off = rng.choice([None, 0, 60, -300, 330, 765, -720, -210, -570, -30, 345])
             if off is None:
                 out.append(('iso-z', dt.isoformat() + 'Z'))
             else:
@@ -257,6 +257,10 @@ def run_integration(ctx: ShardCtx, res: ShardResult) -> None:
             by_full[(f'{o.prefix}.{o.full_name}' if o.prefix else o.full_name)] = o
         use_of = {'video': OptionUsage.VIDEO, 'audio': OptionUsage.AUDIO, 'text': OptionUsage.TEXT}
         n = ctx.scale(10**6, 10**7)
+        # invariant at a hook: the process-wide default options are the same object for every request;
+        # no request may leave a trace in them (they are compared, nested containers included, after
+        # every manifest request)
+        pristine = flat_options(OptionsRepository.get_default_options())
         for i in range(n):
             case = gen_manifest_case(ctx)
             env.clock.set(datetime.datetime.fromisoformat(case['now']))
@@ -266,6 +270,14 @@ def run_integration(ctx: ShardCtx, res: ShardResult) -> None:
             res.evaluations += 1
             caps = rec.take()
             rp = {'case': case}
+            res.count('int.defaults_compared')
+            now_defaults = flat_options(OptionsRepository.get_default_options())
+            if now_defaults != pristine:
+                changed = sorted(k for k in set(pristine) | set(now_defaults) if pristine.get(k) != now_defaults.get(k))
+                res.violation('request-changes-process-wide-default-options',
+                              f'{url}: after this request the default options differ in {changed[:6]} '
+                              f'(e.g. {changed[0]}: {pristine.get(changed[0])!r} -> {now_defaults.get(changed[0])!r})', rp)
+                pristine = now_defaults
             if r.status_code != 200 or not caps:
                 res.count(f'int.manifest_status.{r.status_code}')
                 if r.status_code >= 500:
